@@ -15,7 +15,8 @@ Variable veqb : V -> V -> bool.
 Inductive meth := MPost | MGet | MPut | MDelete | MHead | MOtherMeth.
 Inductive ctype := CTJson | CTOther.           (* exactly "application/json", or anything else incl. absent / with parameters *)
 Inductive nbhdr := HSetec | HOther.            (* Sec-X-Tailscale-No-Browsers: exactly "setec", or anything else incl. absent *)
-Inductive endpoint := EList | EGet | EInfo | EPut | EActivate | EDelete | EDeleteVersion.
+Inductive endpoint := EList | EGet | EInfo | EPut | EActivate | EDelete | EDeleteVersion
+| EHtml.   (* not an API endpoint: the HTML listing that the mux serves on "/" and on every path no API route matches *)
 
 (* one capability entry of the WhoIs answer's CapMap *)
 Inductive capval :=
@@ -92,6 +93,7 @@ Definition zero_req (e : endpoint) (empty : V) : apireq :=
   | EActivate => QActivate [] 0
   | EDelete => QDelete []
   | EDeleteVersion => QDeleteVersion [] 0
+  | EHtml => QList
   end.
 
 Definition endpoint_of (q : apireq) : endpoint :=
@@ -103,9 +105,11 @@ Definition endpoint_of (q : apireq) : endpoint :=
 Definition endpoint_eqb (a b : endpoint) : bool :=
   match a, b with
   | EList, EList | EGet, EGet | EInfo, EInfo | EPut, EPut | EActivate, EActivate
-  | EDelete, EDelete | EDeleteVersion, EDeleteVersion => true
+  | EDelete, EDelete | EDeleteVersion, EDeleteVersion | EHtml, EHtml => true
   | _, _ => false
   end.
+
+Definition is_api (e : endpoint) : bool := match e with EHtml => false | _ => true end.
 
 (* json decoding of the body into the endpoint's request type *)
 Definition decode (e : endpoint) (b : body) (empty : V) : option apireq :=
@@ -141,7 +145,19 @@ Inductive gate_result :=
 | Reject (st : N)
 | Accept (c : caller) (q : apireq).
 
-Definition gate (rq : request) : gate_result :=
+(* the HTML listing (htmlList): GET only; no content-type or header requirement (it is meant for browsers);
+   the body is ignored; the caller is identified exactly as for the API; the page is db.List for that caller *)
+Definition html_gate (rq : request) : gate_result :=
+  match rq_meth rq with
+  | MGet =>
+      match identity (rq_addr_ok rq) (rq_whois rq) with
+      | None => Reject 500
+      | Some c => Accept c QList
+      end
+  | _ => Reject 400
+  end.
+
+Definition api_gate (rq : request) : gate_result :=
   match rq_meth rq with
   | MPost =>
       match rq_ctype rq with
@@ -162,6 +178,9 @@ Definition gate (rq : request) : gate_result :=
       end
   | _ => Reject 400
   end.
+
+Definition gate (rq : request) : gate_result :=
+  if is_api (rq_endpoint rq) then api_gate rq else html_gate rq.
 
 Definition http_step (ev : env) (s : dbstate V) (rq : request) : dbstate V * response * list effect :=
   match gate rq with
